@@ -554,6 +554,47 @@ class simplify_chained_calls(FuncADLNodeTransformer):
         "Do lookup and see if we should translate or not."
         return self._arg_stack.lookup_name(name_node.id, default=name_node)
 
+    def visit_Lambda(self, node: ast.Lambda):
+        """
+        A lambda's own parameters hide any outer definition of the same name while we are
+        inside its body. And if an expression we might substitute into the body mentions a name
+        that this lambda binds, the parameter is renamed so it cannot capture that name.
+        """
+        all_args = node.args.posonlyargs + node.args.args + node.args.kwonlyargs
+        for extra in (node.args.vararg, node.args.kwarg):
+            if extra is not None:
+                all_args.append(extra)
+        if len(all_args) == 0:
+            return self.generic_visit(node)
+
+        names_in_flight = set()
+        for frame in self._arg_stack._arg_transformer:
+            for replacement in frame.values():
+                names_in_flight.update(
+                    n.id for n in ast.walk(replacement) if isinstance(n, ast.Name)
+                )
+
+        new_args = copy.deepcopy(node.args)
+        new_all_args = new_args.posonlyargs + new_args.args + new_args.kwonlyargs
+        for extra in (new_args.vararg, new_args.kwarg):
+            if extra is not None:
+                new_all_args.append(extra)
+
+        new_args.defaults = [self.visit(d) for d in node.args.defaults]
+        new_args.kw_defaults = [
+            self.visit(d) if d is not None else None for d in node.args.kw_defaults
+        ]
+        with stack_frame(self._arg_stack):
+            for a in new_all_args:
+                if a.arg in names_in_flight:
+                    old_name = a.arg
+                    a.arg = arg_name()
+                    self._arg_stack.define_name(old_name, ast.Name(a.arg, ast.Load()))
+                else:
+                    self._arg_stack.define_name(a.arg, ast.Name(a.arg, ast.Load()))
+            new_body = self.visit(node.body)
+        return ast.Lambda(args=new_args, body=new_body)
+
     def visit_Attribute_Of_First(self, first: ast.expr, attr: str):
         """
         Convert a seq.First().attr
